@@ -18,6 +18,10 @@ claim("C12","exploration","runtime monitor: differential oracle (reference envel
  "Every generated (name,type,seqid,body) is written by all envelope encoders and compared with spec bytes, read back by all envelope decoders, sent as a request in the three framings through DecodeRequest and ReadRequest under six chunking classes (seekable or not), wrong-type rejection is checked, and each response is re-decoded by the reference codec; the internal envelope client/multiplex/server loop is judged on the bytes crossing the transport; mutated byte strings check agreement of the two request APIs.",
  "trusts refcodec's envelope grammar; message types 0..127, names 1..65536 bytes", "DESIGN.md §5 C12")
 
+claim("C13","exploration","runtime monitor: allocation (MemStats/MemProfile site attribution) and reader-call accounting around single decode calls in memory-limited child processes",
+ "Short messages whose every length/count position is overwritten with 2^16..2^31-1 are pushed through every decoding API; bytes allocated (runtime.MemStats.TotalAlloc delta) and reader calls+seeks are compared with a linear bound, and an excess is attributed to its allocation site by runtime.MemProfile or by the out-of-memory trace under ulimit -v. One open finding (generated container deserializers) is matched by allocation site only.",
+ "bounds C0=2 MiB (11 MiB frame reader), k=128 B/byte, calls<=64N+256; generated types limited to plugin/api until the generated-program lab covers C13", "DESIGN.md §5 C13")
+
 NOT_IMPL = "check not implemented yet in this round (statement about the machinery, not the technique)"
 
 def main():
